@@ -508,6 +508,12 @@ def gen_world(src, profile):
             if cands:
                 a = src.pick(cands)
                 q["redefaults"] = {a["name"]: conforming_default(gen_value(src, a["type"], True), a["type"])}
+            ints = [a["name"] for a in attrs if a["type"] == ["int"] and a["name"] not in (q.get("redefaults") or {}) and a["name"] not in mdesc.get("prepare", {})
+                    and not a.get("invalidated_by") and a.get("init") is not False]
+            takers = [a["name"] for a in attrs if a["type"] in (["opt", ["int"]], ["union", [["int"], ["str"]]], ["float"], ["bounded", "int", {"ge": 0}])
+                      and a["name"] not in (q.get("redefaults") or {}) and a.get("init") is not False]
+            if profile.get("prop_override") and ints and takers and src.chance(2, 3):
+                q["prop_override"] = {ints[0]: src.pick(takers)}
             world["classes"].append(q)
             inst = "Q"
         elif m == 1:
@@ -719,6 +725,10 @@ class World:
             for name, v in (c.get("redefaults") or {}).items():
                 fl = (c.get("redeclared_flags") or {}).get(name)
                 ns[name] = Attr(default=self._default_obj(v), **fl) if fl is not None else self._default_obj(v)
+            for name, other in (c.get("prop_override") or {}).items():
+                # an undecorated subclass turns an inherited (plain) managed attribute into a property whose setter assigns
+                # ANOTHER managed attribute
+                ns[name] = property(lambda self, _o=other: getattr(self, _o), lambda self, v, _o=other: setattr(self, _o, v))
             for name, how in (c.get("prepare") or {}).items():
                 if c.get("prepare_style") == "decorator" and isinstance(ns.get(name), Attr):
                     ns[name].preparer(self._preparer("prepare", name, how))  # the `@<attr>.preparer` spelling
